@@ -23,6 +23,10 @@ Lemma kdf1 key fcs fc p0 : hex_decode fcs = Some [fc] ->
 Proof.
   intro Hf. unfold GetKDFValue, kdf. rewrite Hf, !KDFLen_len2. cbn [concat params app]. rewrite !app_nil_r. reflexivity.
 Qed.
+Lemma kdf12 key fcs fc p0 p1 : hex_decode fcs = Some [fc] ->
+  GetKDFValue H key fcs [p0; KDFLen p0; p1; KDFLen p1] = kdf H key fc [p0; p1] /\
+  GetKDFValue H key fcs [p0; KDFLen p0] = kdf H key fc [p0].
+Proof. intro Hf. split; [apply kdf2|apply kdf1]; exact Hf. Qed.
 End Kdf.
 
 Lemma fc_kausf : hex_decode FC_FOR_KAUSF_DERIVATION = Some [106]. Proof. reflexivity. Qed.
